@@ -160,7 +160,8 @@ def run_config(ctx, config):
 
 
 def run(ctx):
-    for config in ("f64-all", "dec-all"):
+    # thorough: the same rules on the no_std builds of both back-ends (independent of C19's body-identity argument)
+    for config in ("f64-all", "dec-all") + (("f64-nostd", "dec-nostd") if ctx.tier == "thorough" else ()):
         run_config(ctx, config)
     ctx.rule_text = ("one obligation per generic mechanism x configuration (value-flow form vs specification, compared over the "
                      "truth table of its guards), plus record axioms per impl Quantity and override checks per impl")
